@@ -97,3 +97,26 @@ Theorem C02_sessions_on_the_physical_index :
   J P (lfinal Flat.flat_ops P sf l).
 Proof. exact phys_sessions_flat. Qed.
 Print Assumptions C02_sessions_on_the_physical_index.
+
+(* ---- Close then Open on the PHYSICAL index (Phys.v: bucket files addressed by byte offset, overflow allocation,
+   free list), PhysCrash.v: three layers, phys -- PR --> chain -- st_rel --> flat ---- *)
+From Pogreb Require Import Base BaseLemmas Crc Bytes Record RecordProofs Flat Index Spec DB DBInv
+  DBLemmas DBProofsOps DBMeta DBProofsCompact DBProofsRecovery DBProofsCrash DBSim DBRun DBSimExact
+  Bucket Phys PhysProofs PhysDB DBSimSessions PhysCrash.
+Import ListNotations.
+(* Close returns ok, the next Open is clean, answers before and after equal the contents; main.pix / index.pmt hold values satisfying the physical invariant *)
+Theorem C02_close_reopen_on_the_physical_index :
+  forall P seed (s1 : (@DB.st phys)) (sp : (@DB.st pindex)) (sf : (@DB.st flat)) m,
+
+  params_ok P -> gst_rel PR s1 sp -> st_rel sp sf -> Inv P sf -> s_mem sf = Some m -> MetaOK sf ->
+  let s1a := fst (db_close phys_ops s1) in
+  let s1b := fst (db_open phys_ops P seed (clear_trace s1a)) in
+  snd (db_close phys_ops s1) = OOk /\ snd (db_open phys_ops P seed (clear_trace s1a)) = OOpened false /\
+  answers1 P s1 (abs (s_disk sf)) /\ answers1 P s1b (abs (s_disk sf)) /\
+  phys_open_ok s1 /\ s_mem s1a = None /\ stored_index (s_disk s1a) (m_idx m) /\ phys_open_ok s1b /\
+  exists sp2 sf2, gst_rel PR s1b sp2 /\ st_rel sp2 sf2 /\ Inv P sf2 /\ MetaOK sf2 /\ s_mem sf2 <> None /\
+                  meq (abs (s_disk sf2)) (abs (s_disk sf)).
+Proof. exact phys_close_reopen_ok_proj. Qed.
+Print Assumptions C02_close_reopen_on_the_physical_index.
+
+Definition C02_physical_nonvacuous := PhysCrashEx.ex_close_reopen.
